@@ -85,7 +85,7 @@ class Walk:
         for s in segs:
             g = is_gs(s)
             if g and norm and norm[-1][0] == 'GS':
-                norm[-1] = ('GS', g)         # consecutive globstars count as one (the later one decides the kind, as written order)
+                norm[-1] = ('GS', 'gsl' if 'gsl' in (g, norm[-1][1]) else g)    # consecutive globstars count as one; `***` anywhere in the run makes it `***`
                 continue
             norm.append(('GS', g) if g else ('SEG', plain(s)))
         if m.matchbase and not has_sep and not trail and len(norm) == 1:
